@@ -129,18 +129,36 @@ fn run_jobs<T: Send, F: Fn(T) + Sync + Send>(items: Vec<T>, f: F) {
 }
 
 pub mod iter {
+    //! The parallel-iterator subset. Every element is one job of one phase; adaptor
+    //! closures (`map`, `filter`) run inside the job, like in rayon.
     use super::run_jobs;
+    use std::sync::Mutex;
 
     pub trait ParallelIterator: Sized + Send {
         type Item: Send;
+
+        /// One job per element; `sink(index, item)` is called inside the job.
         #[doc(hidden)]
-        fn into_items(self) -> Vec<Self::Item>;
+        fn drive<S>(self, sink: S)
+        where
+            S: Fn(usize, Self::Item) + Sync + Send;
 
         fn for_each<F>(self, f: F)
         where
             F: Fn(Self::Item) + Sync + Send,
         {
-            run_jobs(self.into_items(), f)
+            self.drive(|_, it| f(it))
+        }
+
+        fn for_each_with<T, F>(self, init: T, f: F)
+        where
+            T: Clone + Send + Sync,
+            F: Fn(&mut T, Self::Item) + Sync + Send,
+        {
+            self.drive(|_, it| {
+                let mut t = init.clone();
+                f(&mut t, it)
+            })
         }
 
         fn map<R: Send, F>(self, f: F) -> Map<Self, F>
@@ -149,9 +167,68 @@ pub mod iter {
         {
             Map { base: self, f }
         }
+
+        fn filter<P>(self, p: P) -> Filter<Self, P>
+        where
+            P: Fn(&Self::Item) -> bool + Sync + Send,
+        {
+            Filter { base: self, p }
+        }
+
+        #[doc(hidden)]
+        fn collect_indexed(self) -> Vec<Self::Item> {
+            let slots: Mutex<Vec<(usize, Self::Item)>> = Mutex::new(Vec::new());
+            self.drive(|i, it| {
+                let _z = simcore::zone::enter(simcore::zone::OFF);
+                slots.lock().unwrap().push((i, it));
+            });
+            let mut v = slots.into_inner().unwrap();
+            v.sort_by_key(|(i, _)| *i);
+            v.into_iter().map(|(_, it)| it).collect()
+        }
+
+        fn collect<C: FromIterator<Self::Item>>(self) -> C {
+            self.collect_indexed().into_iter().collect()
+        }
+
+        fn any<P>(self, p: P) -> bool
+        where
+            P: Fn(Self::Item) -> bool + Sync + Send,
+        {
+            self.map(p).collect_indexed().into_iter().any(|b| b)
+        }
+
+        fn all<P>(self, p: P) -> bool
+        where
+            P: Fn(Self::Item) -> bool + Sync + Send,
+        {
+            self.map(p).collect_indexed().into_iter().all(|b| b)
+        }
+
+        fn count(self) -> usize {
+            self.collect_indexed().len()
+        }
+
+        fn sum<S>(self) -> S
+        where
+            S: std::iter::Sum<Self::Item>,
+        {
+            self.collect_indexed().into_iter().sum()
+        }
+
+        fn reduce<OP, ID>(self, identity: ID, op: OP) -> Self::Item
+        where
+            OP: Fn(Self::Item, Self::Item) -> Self::Item + Sync + Send,
+            ID: Fn() -> Self::Item + Sync + Send,
+        {
+            self.collect_indexed().into_iter().fold(identity(), op)
+        }
     }
 
     pub trait IndexedParallelIterator: ParallelIterator {
+        #[doc(hidden)]
+        fn into_items(self) -> Vec<Self::Item>;
+
         fn zip<Z>(self, other: Z) -> Zip<Self, Z::Iter>
         where
             Z: IntoParallelIterator,
@@ -162,6 +239,11 @@ pub mod iter {
         fn enumerate(self) -> Enumerate<Self> {
             Enumerate { base: self }
         }
+    }
+
+    fn drive_items<T: Send, S: Fn(usize, T) + Sync + Send>(items: Vec<T>, sink: S) {
+        let indexed: Vec<(usize, T)> = items.into_iter().enumerate().collect();
+        run_jobs(indexed, move |(i, it)| sink(i, it))
     }
 
     pub trait IntoParallelIterator {
@@ -190,11 +272,117 @@ pub mod iter {
     }
     impl<T: Send> ParallelIterator for VecIter<T> {
         type Item = T;
+        fn drive<S: Fn(usize, T) + Sync + Send>(self, sink: S) {
+            drive_items(self.v, sink)
+        }
+    }
+    impl<T: Send> IndexedParallelIterator for VecIter<T> {
         fn into_items(self) -> Vec<T> {
             self.v
         }
     }
-    impl<T: Send> IndexedParallelIterator for VecIter<T> {}
+    impl<'a, T: Sync + 'a> IntoParallelIterator for &'a [T] {
+        type Iter = VecIter<&'a T>;
+        type Item = &'a T;
+        fn into_par_iter(self) -> Self::Iter {
+            VecIter { v: self.iter().collect() }
+        }
+    }
+    impl<'a, T: Send + 'a> IntoParallelIterator for &'a mut [T] {
+        type Iter = VecIter<&'a mut T>;
+        type Item = &'a mut T;
+        fn into_par_iter(self) -> Self::Iter {
+            VecIter { v: self.iter_mut().collect() }
+        }
+    }
+    impl<'a, T: Sync + 'a> IntoParallelIterator for &'a Vec<T> {
+        type Iter = VecIter<&'a T>;
+        type Item = &'a T;
+        fn into_par_iter(self) -> Self::Iter {
+            VecIter { v: self.iter().collect() }
+        }
+    }
+    impl<'a, T: Send + 'a> IntoParallelIterator for &'a mut Vec<T> {
+        type Iter = VecIter<&'a mut T>;
+        type Item = &'a mut T;
+        fn into_par_iter(self) -> Self::Iter {
+            VecIter { v: self.iter_mut().collect() }
+        }
+    }
+    impl IntoParallelIterator for std::ops::Range<usize> {
+        type Iter = VecIter<usize>;
+        type Item = usize;
+        fn into_par_iter(self) -> Self::Iter {
+            VecIter { v: self.collect() }
+        }
+    }
+    impl IntoParallelIterator for std::ops::Range<u32> {
+        type Iter = VecIter<u32>;
+        type Item = u32;
+        fn into_par_iter(self) -> Self::Iter {
+            VecIter { v: self.collect() }
+        }
+    }
+
+    pub trait IntoParallelRefIterator<'a> {
+        type Iter: ParallelIterator<Item = Self::Item>;
+        type Item: Send + 'a;
+        fn par_iter(&'a self) -> Self::Iter;
+    }
+    impl<'a, I: 'a + ?Sized> IntoParallelRefIterator<'a> for I
+    where
+        &'a I: IntoParallelIterator,
+    {
+        type Iter = <&'a I as IntoParallelIterator>::Iter;
+        type Item = <&'a I as IntoParallelIterator>::Item;
+        fn par_iter(&'a self) -> Self::Iter {
+            self.into_par_iter()
+        }
+    }
+    pub trait IntoParallelRefMutIterator<'a> {
+        type Iter: ParallelIterator<Item = Self::Item>;
+        type Item: Send + 'a;
+        fn par_iter_mut(&'a mut self) -> Self::Iter;
+    }
+    impl<'a, I: 'a + ?Sized> IntoParallelRefMutIterator<'a> for I
+    where
+        &'a mut I: IntoParallelIterator,
+    {
+        type Iter = <&'a mut I as IntoParallelIterator>::Iter;
+        type Item = <&'a mut I as IntoParallelIterator>::Item;
+        fn par_iter_mut(&'a mut self) -> Self::Iter {
+            self.into_par_iter()
+        }
+    }
+
+    pub trait ParallelSlice<T: Sync> {
+        fn as_parallel_slice(&self) -> &[T];
+        fn par_chunks(&self, n: usize) -> VecIter<&[T]> {
+            VecIter { v: self.as_parallel_slice().chunks(n).collect() }
+        }
+        fn par_chunks_exact(&self, n: usize) -> VecIter<&[T]> {
+            VecIter { v: self.as_parallel_slice().chunks_exact(n).collect() }
+        }
+    }
+    impl<T: Sync> ParallelSlice<T> for [T] {
+        fn as_parallel_slice(&self) -> &[T] {
+            self
+        }
+    }
+    pub trait ParallelSliceMut<T: Send> {
+        fn as_parallel_slice_mut(&mut self) -> &mut [T];
+        fn par_chunks_mut(&mut self, n: usize) -> VecIter<&mut [T]> {
+            VecIter { v: self.as_parallel_slice_mut().chunks_mut(n).collect() }
+        }
+        fn par_chunks_exact_mut(&mut self, n: usize) -> VecIter<&mut [T]> {
+            VecIter { v: self.as_parallel_slice_mut().chunks_exact_mut(n).collect() }
+        }
+    }
+    impl<T: Send> ParallelSliceMut<T> for [T] {
+        fn as_parallel_slice_mut(&mut self) -> &mut [T] {
+            self
+        }
+    }
 
     pub struct Zip<A, B> {
         a: A,
@@ -202,41 +390,69 @@ pub mod iter {
     }
     impl<A: IndexedParallelIterator, B: IndexedParallelIterator> ParallelIterator for Zip<A, B> {
         type Item = (A::Item, B::Item);
+        fn drive<S: Fn(usize, Self::Item) + Sync + Send>(self, sink: S) {
+            drive_items(self.into_items(), sink)
+        }
+    }
+    impl<A: IndexedParallelIterator, B: IndexedParallelIterator> IndexedParallelIterator for Zip<A, B> {
         fn into_items(self) -> Vec<Self::Item> {
             self.a.into_items().into_iter().zip(self.b.into_items()).collect()
         }
     }
-    impl<A: IndexedParallelIterator, B: IndexedParallelIterator> IndexedParallelIterator for Zip<A, B> {}
 
     pub struct Enumerate<A> {
         base: A,
     }
     impl<A: IndexedParallelIterator> ParallelIterator for Enumerate<A> {
         type Item = (usize, A::Item);
+        fn drive<S: Fn(usize, Self::Item) + Sync + Send>(self, sink: S) {
+            drive_items(self.into_items(), sink)
+        }
+    }
+    impl<A: IndexedParallelIterator> IndexedParallelIterator for Enumerate<A> {
         fn into_items(self) -> Vec<Self::Item> {
             self.base.into_items().into_iter().enumerate().collect()
         }
     }
-    impl<A: IndexedParallelIterator> IndexedParallelIterator for Enumerate<A> {}
 
     pub struct Map<A, F> {
         base: A,
         f: F,
     }
-    // `map` is applied inside the job, like rayon does.
-    impl<A: ParallelIterator, R: Send, F: Fn(A::Item) -> R + Sync + Send> Map<A, F> {
-        pub fn for_each<G>(self, g: G)
-        where
-            G: Fn(R) + Sync + Send,
-        {
+    impl<A: ParallelIterator, R: Send, F: Fn(A::Item) -> R + Sync + Send> ParallelIterator for Map<A, F> {
+        type Item = R;
+        fn drive<S: Fn(usize, R) + Sync + Send>(self, sink: S) {
             let f = self.f;
-            run_jobs(self.base.into_items(), move |it| g(f(it)))
+            self.base.drive(move |i, it| sink(i, f(it)))
+        }
+    }
+
+    pub struct Filter<A, P> {
+        base: A,
+        p: P,
+    }
+    impl<A: ParallelIterator, P: Fn(&A::Item) -> bool + Sync + Send> ParallelIterator for Filter<A, P> {
+        type Item = A::Item;
+        fn drive<S: Fn(usize, A::Item) + Sync + Send>(self, sink: S) {
+            let p = self.p;
+            self.base.drive(move |i, it| {
+                if p(&it) {
+                    sink(i, it)
+                }
+            })
         }
     }
 }
 
+pub mod slice {
+    pub use crate::iter::{ParallelSlice, ParallelSliceMut};
+}
+
 pub mod prelude {
-    pub use crate::iter::{IndexedParallelIterator, IntoParallelIterator, ParallelIterator};
+    pub use crate::iter::{
+        IndexedParallelIterator, IntoParallelIterator, IntoParallelRefIterator, IntoParallelRefMutIterator, ParallelIterator,
+        ParallelSlice, ParallelSliceMut,
+    };
 }
 
 /// `rayon::join`: two jobs of one phase.
@@ -260,4 +476,35 @@ where
     let x = ra.lock().unwrap().take().unwrap();
     let y = rb.lock().unwrap().take().unwrap();
     (x, y)
+}
+
+#[cfg(test)]
+mod tests {
+    use crate::prelude::*;
+
+    #[test]
+    fn api_smoke() {
+        shuttle::check_random(
+            || {
+                crate::sim::set_pool(&[4]);
+                let v: Vec<u32> = (0..20).collect();
+                let s: u32 = v.par_iter().map(|x| *x * 2).sum();
+                assert_eq!(s, 380);
+                let mut w = vec![0u32; 10];
+                w.par_iter_mut().enumerate().for_each(|(i, x)| *x = i as u32);
+                assert_eq!(w, (0..10).collect::<Vec<u32>>());
+                let mut buf = vec![1u8; 12];
+                buf.par_chunks_mut(5).for_each(|c| c.iter_mut().for_each(|b| *b += 1));
+                assert!(buf.iter().all(|b| *b == 2));
+                let c: Vec<u32> = v.clone().into_par_iter().filter(|x| x % 2 == 0).collect();
+                assert_eq!(c.len(), 10);
+                assert!(v.par_iter().any(|x| *x == 7));
+                let (a, b) = crate::join(|| 1, || 2);
+                assert_eq!((a, b), (1, 2));
+                let z: Vec<(u32, u32)> = v.clone().into_par_iter().zip(v.clone()).collect();
+                assert_eq!(z[3], (3, 3));
+            },
+            50,
+        );
+    }
 }
